@@ -114,6 +114,8 @@ def check(run):
     import p11, p05
     p11.exact_key_rule(run)
     p05.close_resets_rule(run)
+    run.clause('an accepted socket shares its acceptor\'s endpoint without owning the listening entry: moving or closing it never re-points or erases the entry that later connects are looked up in (shared with C11/C12)')
+    p11.owner_rules(run)
 
     run.clause('refusal: on the error path of async_connect the channel is dropped and the completion goes through m_connect_timer armed with a positive constant; never post')
     ac = fx.fn1(T + '::async_connect')
